@@ -200,6 +200,16 @@ theorem icmp6_chain_is_wire (h : Icmp6) (ip : Ipv6Header) (p : Bytes) (hs : ip.s
     Lemmas.Builder.beWords_append_even _ _ ea, Lemmas.Builder.beWords_append_even _ _ eb,
     Lemmas.Builder.beWords_append_even _ _ he1, Lemmas.Builder.beWords_append_even _ _ (by omega : (zeroAt (Icmp6.toBytes h) 2 2).length % 2 = 0), hw, hAB]
 
+/-- **IGMP** (`IgmpHeader::calc_checksum`, all seven message kinds): RFC 1071 over the whole message - header bytes
+    with a zeroed checksum field, then the payload (RFC 2236 / 9776) -/
+theorem igmp_chain_is_wire (t : IgmpType) (ck : Nat) (p : Bytes) (wf : Igmp.IgmpType.WF t) :
+    igmpChecksum t p = wireIgmp (Igmp.toBytes ⟨t, ck⟩ ++ p) := by
+  obtain ⟨hw, he1, he2, h4⟩ := igmp_parts_words t ck wf
+  unfold igmpChecksum wireIgmp
+  rw [chain_eq _ _ (igmp_parts_ok t wf), zeroAt_append_right _ _ _ _ h4]
+  apply checksum_congr
+  rw [Lemmas.Builder.beWords_append_even _ _ he1, Lemmas.Builder.beWords_append_even _ _ he2, hw]
+
 /-- the hypotheses are met by real values: a UDP header with ports 1 / 2, length field 10 and two payload
     bytes over 10.0.0.1 → 10.0.0.2 (both sides evaluate to 0x4007 with `#eval`; the kernel does not unfold the
     well-founded recursion of the accumulators, so the number is not part of the example) -/
